@@ -59,6 +59,26 @@ Proof. intro n. apply of_N_spec. Qed.
 Lemma wf_of_N : forall n, wf (of_N n) = true.
 Proof. intro n. apply of_N_spec. Qed.
 
+Lemma div_repr_spec : forall a g, wf a = true -> g <> 0 ->
+  val (div_repr a g) = val a / g /\ wf (div_repr a g) = true.
+Proof.
+  intros [n|v] g Hwf Hg.
+  - apply wf_Small in Hwf. cbn [div_repr val wf]. split; [reflexivity|].
+    unfold limb_ok. apply N.ltb_lt.
+    pose proof (N.div_le_upper_bound n g n Hg ltac:(nia)). lia.
+  - cbn [div_repr].
+    destruct (N.eqb_spec g 1) as [->|H1]; [rewrite N.div_1_r; split; [reflexivity|assumption]|].
+    destruct (is_zero (Large v)) eqn:Ez.
+    { apply is_zero_val in Ez; [|assumption]. rewrite Ez, N.div_0_l by assumption. split; reflexivity. }
+    destruct (N.ltb_spec (val (Large v)) g) as [Hlt|Hge].
+    { rewrite N.div_small by assumption. split; reflexivity. }
+    destruct (N.eqb_spec (val (Large v)) g) as [He|Hne].
+    { rewrite He, N.div_same by assumption. split; reflexivity. }
+    destruct (N.eqb_spec g 2) as [->|H2].
+    { destruct (rshift_spec (Large v) Hwf) as [Hw Hv]. cbn [rshift] in Hw, Hv. split; assumption. }
+    split; [apply val_of_N|apply wf_of_N].
+Qed.
+
 (* ------------------------------------------------------------------ *)
 (* factorial *)
 
@@ -221,9 +241,11 @@ Proof.
   - exists q. repeat split; try assumption. rewrite Hn, E. lia.
   - rewrite Hn, gcd_mul_self.
     destruct (N.eqb_spec (dval q) 0) as [E0|E0]; [contradiction|].
+    destruct (div_repr_spec (rnum q) (dval q) W1 E0) as [Vn Wn].
+    destruct (div_repr_spec (rden q) (dval q) W2 E0) as [Vd _].
     eexists; split; [reflexivity|].
-    unfold dval, nval. cbn [rden rnum rneg]. rewrite !val_of_N, wf_of_N.
-    fold (dval q). rewrite N.div_same, N.div_mul by assumption. repeat split.
+    unfold dval at 1, nval at 1. cbn [rden rnum rneg]. rewrite Vn, Vd, Wn.
+    fold (nval q) (dval q). rewrite Hn, N.div_same, N.div_mul by assumption. repeat split.
 Qed.
 
 Lemma apply_uint_op_repr : forall (R : Type) q n (f : buint -> res R), rat_repr q n ->
@@ -427,8 +449,10 @@ Proof.
     assert (kd <> 0) by (intro; subst kd; lia).
     eexists; split; [reflexivity|].
     set (s := mkrat _ _ _).
-    assert (Ns : nval s = kn) by (unfold s, nval at 1; cbn [rnum]; rewrite val_of_N; exact En).
-    assert (Ds : dval s = kd) by (unfold s, dval at 1; cbn [rden]; rewrite val_of_N; exact Ed).
+    destruct (div_repr_spec (rnum q) g W1 Hg) as [Vn _].
+    destruct (div_repr_spec (rden q) g W2 Hg) as [Vd _].
+    assert (Ns : nval s = kn) by (unfold s, nval at 1; cbn [rnum]; rewrite Vn; exact En).
+    assert (Ds : dval s = kd) by (unfold s, dval at 1; cbn [rden]; rewrite Vd; exact Ed).
     rewrite Ns, Ds.
     repeat split; try assumption; try reflexivity.
     + rewrite Kn, Kd. lia.
@@ -652,4 +676,52 @@ Proof.
   intros c q H Hq. unfold c_fibonacci, c_try_as_usize, c_try_as_biguint, r_try_as_usize, r_try_as_biguint.
   rewrite H. destruct (N.eqb_spec (nval q) 0) as [E|E]; [contradiction|].
   destruct (real_is_zero (cim c)); repeat split; eexists; reflexivity.
+Qed.
+
+(* ------------------------------------------------------------------ *)
+(* summary statements used by Properties/C10.v *)
+
+Lemma domain_errors_lemma : forall q, rat_wf q = true -> ~ denotes_nat q ->
+  is_err (q_factorial q) /\ is_err (q_try_as_usize q) /\ is_err (q_try_as_biguint q) /\
+  (forall op b, rat_wf b = true -> is_err (q_bitwise op q b) /\ is_err (q_bitwise op b q)) /\
+  (forall b, rat_wf b = true ->
+     is_err (q_modulo q b) /\ is_err (q_modulo b q) /\
+     is_err (q_combination q b) /\ is_err (q_combination b q) /\
+     is_err (q_permutation q b)).
+Proof.
+  intros q Wq Hbad. repeat split.
+  - apply q_factorial_domain; assumption.
+  - apply q_try_as_usize_domain; assumption.
+  - apply try_as_biguint_domain; assumption.
+  - apply q_bitwise_domain; auto.
+  - apply q_bitwise_domain; auto.
+  - apply q_modulo_domain; auto.
+  - apply q_modulo_domain; auto.
+  - apply q_combination_domain; auto.
+  - apply q_combination_domain; auto.
+  - apply q_permutation_domain; auto.
+Qed.
+
+Lemma domain_errors_binary_lemma : forall a b n r, rat_repr a n -> rat_repr b r ->
+  (n < r -> is_err (q_combination a b) /\ is_err (q_permutation a b)) /\
+  (r = 0 -> is_err (q_modulo a b)).
+Proof.
+  intros a b n r Ha Hb. split.
+  - apply ncr_r_gt_n; assumption.
+  - intros ->. destruct Ha as [Wa _]. destruct Hb as [Wb [Nb _]].
+    apply q_modulo_domain; try assumption. right; right; left. rewrite Nb. apply N.mul_0_l.
+Qed.
+
+Lemma domain_errors_pi_lemma : forall c q, cre c = RPi q -> nval q <> 0 ->
+  is_err (c_try_as_usize c) /\ is_err (c_try_as_biguint c) /\ is_err (c_fibonacci c) /\
+  (forall f d, is_err (c_binary f c d) /\ is_err (c_binary f d c)).
+Proof.
+  intros c q H Hq. destruct (c_pi_to_integer c q H Hq) as [H1 [H2 H3]].
+  repeat split; try assumption; apply c_binary_nonreal; eauto.
+Qed.
+
+Lemma bad_domain_example :
+  rat_wf (mkrat false (Small 5) (Small 2)) = true /\ ~ denotes_nat (mkrat false (Small 5) (Small 2)).
+Proof.
+  split; [reflexivity|]. intros [[k Hk] _]. unfold nval, dval in Hk. cbn [rnum rden val] in Hk. lia.
 Qed.
